@@ -85,6 +85,7 @@ def clip_worlds(tier: str, seed: int) -> list[dict]:
         S("cf1d", 3, 3, bounds=True, coords_as="plain", descending=(False, True)),
         S("cf2d", 3, 4, shape="skew", bounds=True), S("cf2d", 3, 3, shape="rect", bounds=False),
         S("cf2d", 4, 3, shape="skew2", bounds=True, coords_as="plain", holes=[(0, 0)]),
+        S("cf2d", 3, 3, shape="rect", bounds=False, holes=[(1, 0), (1, 2)]),      # a cell flanked by cells without coordinates
         S("shoc_simple", 3, 3, shape="skew", bounds=True), S("shoc_simple", 3, 4, shape="rect", bounds=True, coords_as="plain"),
         S("shoc_standard", 3, 3, shape="skew"), S("shoc_standard", 3, 4, shape="rect", holes=[(0, 3)]),
         S("shoc_standard", 2, 3, shape="skew2", coords_as="plain"),
